@@ -17,6 +17,7 @@ type faultPlan struct {
 	k     int    // index of the dependency call that fails; -1 = none
 	short bool   // for a Write: report one byte less, with an error
 	silent bool  // with short: report one byte less and NO error
+	halfReads bool // every Read delivers at most half of what was asked for (at least one byte), without error
 	shortFirstWrite bool // the first Write stores one byte less and reports that count with NO error
 	shortRead bool // for a Read: deliver half of what was asked, no error (a legal short read)
 	thenFail  bool // with shortRead: every later Read fails
@@ -160,6 +161,10 @@ func (f *recFile) Truncate(n int64) error {
 	return f.File.Truncate(n)
 }
 func (f *recFile) Read(p []byte) (int, error) {
+	if f.fs.plan.halfReads && len(p) >= 2 {
+		f.fs.calls = append(f.fs.calls, "read")
+		return f.File.Read(p[:len(p)/2])
+	}
 	if f.fs.plan.shortRead && f.fs.plan.applied && f.fs.plan.thenFail {
 		f.fs.calls = append(f.fs.calls, "read")
 		return 0, errInjected
